@@ -78,22 +78,22 @@ let tag (input : string) (out : string) : string =
     ^ (if lr > 20 then "/run>20" else if lr > 1 then "/run>1" else "")
     ^ (if List.length cps = 0 then "/empty" else "")
 
-(* ---- the property, decided on the implementation's output ---- *)
+(* ---- the property, decided on the implementation's output ----
+   Everything below uses only the REFERENCE tables (Model/PreprocessRef.v, typed by hand from Unicode,
+   UTR #53 and the Microsoft/OpenType documents and extracted), never the tables regenerated from the
+   Rust source: `reference` computes the one output the property allows (the specification of
+   Props/C17.v is a function of the input), the other checks name the part of the property that fails. *)
+let zi = z_of_int and iz = z_to_int
 let multiset (l : int list) : int list = List.sort compare l
-
-(* the content the output must have: SARA AM / split matras / Khmer split vowels expanded *)
-let expand_am (l : int list) : int list =
-  List.concat_map (fun c -> match split_am_vowel (z_of_int c) with
-      | Some (a, b) -> [z_to_int a; z_to_int b] | None -> [c]) l
-let expand_matra (l : int list) : int list =
-  List.concat_map (fun c -> match split_matra (z_of_int c) with
-      | Some parts when parts <> [] -> List.map z_to_int parts | _ -> [c]) l
-let khmer_vowels = List.map z_to_int kHMER_SPLIT_VOWELS
-let expand_khmer (l : int list) : int list =
-  List.concat_map (fun c -> if List.mem c khmer_vowels then [z_to_int kHMER_PREBASE_PART; c] else [c]) l
-let dotted = z_to_int dOTTED_CIRCLE
-let ya = z_to_int yA and nukta = z_to_int nUKTA and yya = z_to_int yYA
-(* YYA written back as YA NUKTA: the only recomposition the property allows *)
+let ref_am c = List.map iz (ref_expand_am (zi c))
+let ref_matra c = List.map iz (ref_expand_matra (zi c))
+let ref_khmer c = List.map iz (ref_expand_khmer (zi c))
+let is_mcm c = ref_is_mcm (zi c)
+let is_above c = ref_is_abovebase (zi c)
+let dotted = iz rEF_DOTTED_CIRCLE
+let ya = iz rEF_YA and nukta = iz rEF_NUKTA and yya = iz rEF_YYA
+let shadda_class = iz rEF_SHADDA_CLASS
+let kannada_prefix = List.map iz rEF_KANNADA_PREFIX
 let unrecompose (l : int list) : int list =
   List.concat_map (fun c -> if c = yya then [ya; nukta] else [c]) l
 let count x l = List.length (List.filter (fun y -> y = x) l)
@@ -104,6 +104,77 @@ let runs (cf : int -> int) (l : int list) : int list list =
     | [] -> List.rev (List.rev cur :: acc)
     | c :: t -> if cf c = 0 then go (List.rev cur :: acc) [] t else go acc (c :: cur) t
   in go [] [] l
+
+(* f on every maximal run of marks *)
+let on_runs_ref (cf : int -> int) (f : int list -> int list) (l : int list) : int list =
+  let rec go cur = function
+    | [] -> f (List.rev cur)
+    | c :: t -> if cf c = 0 then f (List.rev cur) @ (c :: go [] t) else go (c :: cur) t
+  in go [] l
+
+let sort_ref cf l = on_runs_ref cf (List.stable_sort (fun a b -> compare (cf a) (cf b))) l
+
+let rec split_while p = function
+  | x :: t when p x -> let (a, b) = split_while p t in (x :: a, b)
+  | l -> ([], l)
+
+let arabic_ref cf l =
+  let step m r =
+    (* the modifier combining marks that start the first group of class m go to the front *)
+    let (a, rest) = split_while (fun c -> cf c <> m) r in
+    let (p, b) = split_while is_mcm rest in
+    p @ a @ b in
+  on_runs_ref cf (fun r ->
+      let s = List.stable_sort (fun a b -> compare (cf a) (cf b)) r in
+      let s = List.filter (fun c -> cf c = shadda_class) s @ List.filter (fun c -> cf c <> shadda_class) s in
+      step 220 (step 230 s)) l
+
+let thai_ref cf l =
+  let ins_above p c1 =
+    let (tl, fr) = split_while is_above (List.rev p) in
+    List.rev fr @ (c1 :: List.rev tl) in
+  let pass = List.fold_left (fun p c ->
+      match ref_am c with
+      | [c1; c2] -> ins_above p c1 @ [c2]
+      | _ -> p @ [c]) [] l in
+  sort_ref cf pass
+
+let rec circles_ref = function
+  | c1 :: (c2 :: r2 as t) ->
+    (match ref_vowel_constraint (zi c1) (zi c2) with
+     | ICBetween -> c1 :: dotted :: c2 :: circles_ref r2
+     | ICMaybeAfter c3 ->
+       (match r2 with
+        | c :: r3 when c = iz c3 -> c1 :: c2 :: dotted :: c :: circles_ref r3
+        | _ -> c1 :: c2 :: circles_ref r2)
+     | ICNone -> c1 :: circles_ref t)
+  | l -> l
+
+let rec recompose_ref = function
+  | a :: b :: r when a = ya && b = nukta -> yya :: recompose_ref r
+  | a :: t -> a :: recompose_ref t
+  | [] -> []
+
+let rec has_prefix l p = match l, p with
+  | _, [] -> true
+  | x :: l', y :: p' -> x = y && has_prefix l' p'
+  | [], _ -> false
+
+let indic_ref cf tag l =
+  let x = sort_ref cf (List.concat_map ref_matra (circles_ref l)) in
+  if tag = iz RefTags.coq_REF_BENGALI_TAG then recompose_ref x
+  else if tag = iz RefTags.coq_REF_KANNADA_TAG then
+    (match x with a :: b :: c :: r when has_prefix x kannada_prefix -> a :: c :: b :: r | _ -> x)
+  else x
+
+let reference (tag : int) (cf : int -> int) (l : int list) : int list =
+  match RefTags.ref_action (zi tag) with
+  | ActArabic -> arabic_ref cf l
+  | ActSort -> sort_ref cf l
+  | ActIndic -> indic_ref cf tag l
+  | ActKhmer -> sort_ref cf (List.concat_map ref_khmer l)
+  | ActNone -> l
+  | ActThaiLao -> thai_ref cf l
 
 let rec sorted_by (cf : int -> int) = function
   | a :: (b :: _ as t) -> cf a <= cf b && sorted_by cf t
@@ -122,8 +193,9 @@ let run_local (cf : int -> int) (inp : int list) (out : int list) : (string * st
     Some ("run-local", "a mark left its run")
   else None
 
-let judge_text (tag : int) (inp : int list) (cf : int -> int) (out : int list) : string * string =
-  match action_of (script_type_of (z_of_int tag)) with
+(* which part of the property an output that differs from the reference violates *)
+let classify (tag : int) (inp : int list) (cf : int -> int) (out : int list) : string * string =
+  match RefTags.ref_action (zi tag) with
   | ActNone -> ("content", "Myanmar text must be left unchanged")
   | ActSort ->
     (match run_local cf inp out with
@@ -136,37 +208,43 @@ let judge_text (tag : int) (inp : int list) (cf : int -> int) (out : int list) :
   | ActArabic ->
     (match run_local cf inp out with
      | Some v -> v
-     | None -> ("arabic-order", "mark run is not in the AMTRA order (MCM below, MCM above, shadda, rest stably by class)"))
+     | None -> ("arabic-order", "a mark run is not in the AMTRA order (MCM below, MCM above, shadda, rest stably by class)"))
   | ActThaiLao ->
-    if multiset out <> multiset (expand_am inp) then
+    if multiset out <> multiset (List.concat_map ref_am inp) then
       ("content", "the output is not a rearrangement of the input with every SARA AM split")
     else ("order", "right content, but not the specified order (nikhahit before the above-base marks, runs sorted)")
   | ActKhmer ->
-    if multiset out <> multiset (expand_khmer inp) then
+    if multiset out <> multiset (List.concat_map ref_khmer inp) then
       ("content", "the output is not a rearrangement of the input with the split vowels prefixed by U+17C1")
     else ("order", "right content, but not the specified order")
   | ActIndic ->
     let strip l = List.filter (fun c -> c <> dotted) l in
-    let circles_in = count dotted inp and circles_out = count dotted out in
-    if multiset (unrecompose (strip out)) <> multiset (unrecompose (expand_matra (strip inp))) then
+    if multiset (unrecompose (strip out)) <> multiset (unrecompose (List.concat_map ref_matra (strip inp))) then
       ("content", "apart from dotted circles the output is not the input with split matras expanded and ya+nukta recomposed")
-    else if circles_out < circles_in then ("content", "a dotted circle of the input disappeared")
+    else if count dotted out <> count dotted (circles_ref inp) then
+      ("circle", "a dotted circle is missing or was inserted where no prohibited vowel pair is")
     else ("order-or-circle", "right content, but a dotted circle or a character is not where the specification puts it")
 
 let judge (input : string) (impl : string) (model : string) : verdict =
   match parse input with
   | Table (cp, ccc) ->
-    if impl = model then Agree
-    else Violation ("mcc-table", Printf.sprintf "modified class of U+%04X (ccc %d): implementation %s, table %s" cp ccc impl model)
+    (* the reference remapping of the canonical class (code points up to U+02FF are never reordered) *)
+    let expect = if cp <= 0x2FF then 0 else iz (ref_mcc (zi ccc)) in
+    if impl <> Printf.sprintf "mcc:%d" expect then
+      Violation ("mcc-table", Printf.sprintf "modified class of U+%04X (ccc %d): implementation %s, reference %d" cp ccc impl expect)
+    else if impl = model then Agree
+    else Mismatch ("class table of the model differs from the reference: " ^ model)
   | Text (tag, cps, h) ->
     if impl = "panic" then Violation ("panic", "preprocess_text panicked")
-    else if impl = model then Agree
-    else if not (starts_with "ok:" model) then Mismatch ("the model did not produce a value: " ^ model)
     else if not (starts_with "ok:" impl) then Mismatch ("unexpected implementation result " ^ impl)
     else begin
-      (* the specification is a function of the input (C17_*_spec theorems): any other output violates
-         it; the checks below only name the part of the property that fails first *)
+      let cf = class_fn h in
       let out = parse_cps (String.sub impl 3 (String.length impl - 3)) in
-      let (cls, why) = judge_text tag cps (class_fn h) out in
-      Violation (cls, why)
+      let expect = reference tag cf cps in
+      if out <> expect then begin
+        let (cls, why) = classify tag cps cf out in
+        Violation (cls, why ^ "; specified: " ^ show_cps expect)
+      end
+      else if impl = model then Agree
+      else Mismatch ("implementation meets the reference specification but the model says " ^ model)
     end
